@@ -674,6 +674,59 @@ def _run(tier, rep):
             rep.failing(f"parse21:different-content:{kind}", f"BootImageV21.parse returned content that differs from what was built ({kind} file)",
                         {"kind": "parse", "case": case, "mutation": p, "got": got})
 
+    # ------------------------------------------------------------------ object history: export twice, change then export, parse().export()
+    import copy
+    hist_ops = []
+    for i, (case, b) in enumerate(zip(cases, built)):
+        if len(hist_ops) >= (24 if thorough else 5):
+            break
+        if b["export"][0] != "ok" or case.get("via") == "config":
+            continue
+        c0 = copy.deepcopy(case)
+        c0["pad"] = rnd_pattern(8).hex()      # the padding a re-created image draws from the (pinned) RNG
+        c1 = copy.deepcopy(c0)
+        kind = ["add_cmd", "add_section", "grow_load"][len(hist_ops) % 3]
+        loads = [(si, ci_) for si, s_ in enumerate(c0["secs"]) for ci_, c in enumerate(s_["cmds"]) if c[0] == 2]
+        if kind == "grow_load" and not loads:
+            kind = "add_cmd"
+        if kind == "add_cmd":
+            si = rng.randrange(len(c0["secs"]))
+            cmd = rng.choice([[8], [5, 0x100, 7], [2, 0x3000, 0, bytes(rng.getrandbits(8) for _ in range(21)).hex(), 1]])
+            change = {"kind": kind, "section": si, "cmd": cmd}
+            c1["secs"][si]["cmds"].append(cmd)
+        elif kind == "add_section":
+            sec = {"uid": 0x77, "hmac": 2, "zero": 1, "cmds": [[7, 0, 0x400, 0, 0], [2, 0x4000, 0, "aa" * 40, 1]]}
+            change = {"kind": kind, "sec": sec}
+            c1["secs"].append(sec)
+        else:
+            si, ci_ = loads[0]
+            old = c0["secs"][si]["cmds"][ci_]
+            new = bytes(rng.getrandbits(8) for _ in range(len(bytes.fromhex(old[3])) + rng.choice([1, 15, 16, 17, 100])))
+            change = {"kind": kind, "section": si, "index": ci_, "data": new.hex()}
+            c1["secs"][si]["cmds"][ci_] = [2, old[1], old[2], new.hex(), old[4]]
+        hist_ops.append({"op": "history", "case": c0, "change": change, "changed_case": c1})
+    rh = run_runner({"keydir": KEYDIR, "need_chains": sorted({o["case"]["chain"] for o in hist_ops}), "ops": hist_ops}, timeout=3000)["results"]
+    n_hist = 0
+    for o, r in zip(hist_ops, rh):
+        if "harness_error" in r or r["first"][0] != "ok":
+            continue
+        n_hist += 1
+        seq = ["build", "export", "update", "export"]
+        if r["second"] != r["first"]:
+            rep.failing("history:second-export-differs:BootImageV21", "a second export() of the same BootImageV21 object differs from the first",
+                        {"kind": "history", "operations": seq, "case": o["case"], "second": r["second"][:2]})
+        if r["reparse"] != r["first"]:
+            rep.failing("history:second-export-differs:parse-then-export", "BootImageV21.parse(data).export() differs from data "
+                        f"({'raised ' + str(r['reparse'][1:]) if r['reparse'][0] != 'ok' else 'other bytes'})",
+                        {"kind": "history", "operations": ["build", "export", "parse", "export"], "case": o["case"]})
+        if r["changed"] != r["fresh_changed"]:
+            rep.failing(f"history:stale-after-change:{o['change']['kind']}", f"export() after {o['change']['kind']} differs from the export of a fresh "
+                        "object configured with the new content",
+                        {"kind": "history", "operations": ["build", "export", "update", "export", o["change"], "update", "export"],
+                         "case": o["case"], "changed_case": o["changed_case"]})
+    rep.add_stream("object history: second export, change then export vs fresh object, parse(data).export()", len(hist_ops) * 3, n_hist,
+                   samples=[o["change"] for o in hist_ops[:3]])
+    lap("history stream")
     # ------------------------------------------------------------------ command-level cases (cheap, many)
     ncmd = 4000 if thorough else 450
     cmd_cases = [gen_cmd(rng, big=thorough) for _ in range(ncmd)]
